@@ -58,6 +58,10 @@ pub fn run(out: &mut Out, thorough: bool, seed: u64, _extra: &[String]) {
             let scale = 2f64.powi(30);
             let ct = s.encryptor.encrypt_new(&enc.encode_c64_array_new(&vals, None, scale));
             let p_special = *qs.last().unwrap();
+            // worst-case key-switch noise (same formula as the driver's integer-level check) turned into a slot tolerance
+            let qmax = *qs[..qs.len() - 1].iter().max().unwrap() as f64;
+            let bks = (21.0 * n as f64 * (qs.len() - 1) as f64 * (qmax / p_special as f64).ceil() + n as f64 + 2.0) * (lg as f64 + 2.0);
+            let tol = 1e-3 + n as f64 * bks / scale;
             let steps: Vec<isize> = (-(row as isize) + 1..row as isize).filter(|&x| x != 0).collect();
             for st in steps {
                 let res = match std::panic::catch_unwind(std::panic::AssertUnwindSafe(|| s.evaluator.rotate_vector_new(&ct, st, &all_keys))) { Ok(c) => c, Err(_) => { out.raw(&format!("!FAIL rotate_vector n={} step={} :: refused although the default keys generate every step # ckks", n, st)); continue } };
@@ -65,13 +69,14 @@ pub fn run(out: &mut Out, thorough: bool, seed: u64, _extra: &[String]) {
                 out.case(&format!("galois_ckks {} {} {} | {}", g, p_special, s.ct_case(&ct), s.ct_case(&res)), &format!("ckks-rot-n{}", n), || "ok".to_string());
                 let dec = enc.decode_new(&s.decryptor.decrypt_new(&res));
                 let sh = ((st % row as isize) + row as isize) as usize % row;
-                let ok = (0..row).all(|i| (dec[i] - vals[(i + sh) % row]).norm() < 1e-3);
-                if ok { out.raw(&format!("!OK rotate_vector_slots n={} step={} # ckks-slots", n, st)); } else { out.raw(&format!("!FAIL rotate_vector_slots n={} step={} :: decoded slots are not the input rotated left by step # ckks-slots", n, st)); }
+                let ok = (0..row).all(|i| (dec[i] - vals[(i + sh) % row]).norm() < tol);
+                if tol > 0.25 { out.raw(&format!("!NOTE rotate_vector slot check skipped: key-switch noise bound exceeds the scale (special prime much smaller than a coefficient prime)")); }
+                else if ok { out.raw(&format!("!OK rotate_vector_slots n={} step={} # ckks-slots", n, st)); } else { out.raw(&format!("!FAIL rotate_vector_slots n={} step={} :: decoded slots are not the input rotated left by step # ckks-slots", n, st)); }
             }
             let res = s.evaluator.complex_conjugate_new(&ct, &all_keys);
             out.case(&format!("galois_ckks {} {} {} | {}", 2 * n - 1, p_special, s.ct_case(&ct), s.ct_case(&res)), &format!("ckks-conj-n{}", n), || "ok".to_string());
             let dec = enc.decode_new(&s.decryptor.decrypt_new(&res));
-            if (0..row).all(|i| (dec[i] - vals[i].conj()).norm() < 1e-3) { out.raw(&format!("!OK conjugate_slots n={} # ckks-slots", n)); } else { out.raw(&format!("!FAIL conjugate_slots n={} :: decoded slots are not the complex conjugates # ckks-slots", n)); }
+            if tol > 0.25 { out.raw("!NOTE conjugate slot check skipped: key-switch noise bound exceeds the scale"); } else if (0..row).all(|i| (dec[i] - vals[i].conj()).norm() < tol) { out.raw(&format!("!OK conjugate_slots n={} # ckks-slots", n)); } else { out.raw(&format!("!FAIL conjugate_slots n={} :: decoded slots are not the complex conjugates # ckks-slots", n)); }
             continue;
         }
         let benc = BatchEncoder::new(s.ctx.clone());
@@ -83,7 +88,8 @@ pub fn run(out: &mut Out, thorough: bool, seed: u64, _extra: &[String]) {
             let mut ct = s.encryptor.encrypt_new(&plain);
             if level == 1 { ct = s.evaluator.mod_switch_to_next_new(&ct); }
             let lbits: f64 = s.level_qs(ct.parms_id()).iter().map(|&q| (q as f64).log2()).sum();
-            let pred0 = (lbits - lt - (n as f64).log2() - 32.0).floor() as i64;
+            let ratio_bits = { let p_sp = *qs.last().unwrap() as f64; let qm = *qs[..qs.len() - 1].iter().max().unwrap() as f64; (qm / p_sp).log2().max(0.0) };
+            let pred0 = (lbits - lt - (n as f64).log2() - 32.0 - ratio_bits).floor() as i64;
             // every odd Galois element with its own key
             let elts: Vec<usize> = if n <= 16 { (0..n).map(|j| 2 * j + 1).collect() } else { (0..8).map(|_| 2 * r.below(n as u64) as usize + 1).collect() };
             let own = s.keygen.create_galois_keys_from_elts(&elts, false);
